@@ -128,9 +128,20 @@ class Session:
       self.s.add(zbool(e))
     t0 = time.time()
     r = str(self.s.check())
-    dt = time.time() - t0
     m = self.s.model() if r == "sat" else None
     self.s.pop()
+    if r == "unknown":
+      # z3's incremental mode gives up on some (nonlinear) queries that a fresh solver decides at once
+      s2 = z3.Solver()
+      s2.set("timeout", self.timeout_ms)
+      for a in self.s.assertions():
+        s2.add(a)
+      for e in extra:
+        if e is not True:
+          s2.add(zbool(e))
+      r = str(s2.check())
+      m = s2.model() if r == "sat" else None
+    dt = time.time() - t0
     return r, dt, m
 
   def prove(self, name, goal, guard=True):
